@@ -296,7 +296,7 @@ func runC09(c *h.Ctx) {
 	g.C.Datetime = true
 	g.C.HardErrs = true
 	dc := gen.DefaultDocCfg()
-	n := c.PerShard(c.N(60000, 1500000))
+	n := c.PerShard(c.N(600000, 6000000))
 	for i := 0; i < n; i++ {
 		lax := r.IntN(2) == 0
 		// a top-level chain from $ with 2..6 steps
